@@ -1,13 +1,5 @@
 // ================= U19 prelude: TRUSTED stand-ins for revm interpreter types =================
 #[derive(PartialEq, Eq, Structural, Clone, Copy)]
-pub enum SpecId { FRONTIER, PETERSBURG, LONDON, CANCUN, PRAGUE, OSAKA }
-impl SpecId {
-    pub uninterp spec fn enabled(self, o: SpecId) -> bool;
-    #[verifier::external_body]
-    pub fn is_enabled_in(self, o: SpecId) -> (b: bool) ensures b == self.enabled(o) { unimplemented!() }
-}
-pub mod revm_primitives { pub mod hardfork { pub use crate::SpecId; } }
-#[derive(PartialEq, Eq, Structural, Clone, Copy)]
 pub enum InstructionResult { StateChangeDuringStaticCall, NotActivated, FatalExternalError, Other(u8) }
 pub type InstructionExecResult = Result<(), InstructionResult>;
 pub trait RuntimeFlag {
